@@ -53,26 +53,51 @@ void *memset(void *dst, int c, size_t n)
 }
 #endif
 
-/* iteration callback: returns st_it_rc[k] on its k-th call and logs */
+/* iteration callback: returns st_it_rc[k] on its k-th call (k < RB_STUB_CALLS;
+ * later calls: any value in the proofs with RB_STUB_UNBOUNDED, else they are
+ * flagged) and logs.  It checks what the property promises the callback: the
+ * table and the argument are the caller's, the handles come in ascending
+ * order without gaps (g_it_first, g_it_first + 1, ...), and no call follows a
+ * non-zero result; any breach sets g_it_bad. */
 #define RB_STUB_CALLS 8
 RegisterTable *g_it_table;
 void *g_it_arg;
 int st_it_rc[RB_STUB_CALLS];
 uint32_t g_it_calls;                   /* number of calls so far */
+uint32_t g_it_first;                   /* handle of the first call */
 uint32_t g_it_handle[RB_STUB_CALLS];   /* handle of call k */
-bool g_it_bad;                         /* a call with a wrong table/argument, or after a non-zero return */
+int g_it_last_rc;                      /* result of the latest call */
+bool g_it_bad;                         /* a call with a wrong table/argument/handle, or after a non-zero return */
 bool g_it_stopped;
+#if !VERIF_IS_NATIVE
+int nondet_int(void);
+#endif
 
 static int rb_stub_iter(RegisterTable *t, RegisterHandle h, void *arg)
 {
-  if (t != g_it_table || arg != g_it_arg || g_it_stopped || g_it_calls >= RB_STUB_CALLS)
+  if (t != g_it_table || arg != g_it_arg || g_it_stopped)
+    g_it_bad = true;
+#ifndef RB_STUB_UNBOUNDED
+  if (g_it_calls >= RB_STUB_CALLS)
+    g_it_bad = true;
+#endif
+  if (g_it_calls == 0)
+    g_it_first = h;
+  else if (h != g_it_first + g_it_calls)
     g_it_bad = true;
   int rc = 0;
   if (g_it_calls < RB_STUB_CALLS) {
-    g_it_handle[g_it_calls] = h;
+#ifndef RB_STUB_UNBOUNDED
+    g_it_handle[g_it_calls] = h;     /* the log of the bounded targets; the contract targets go by g_it_first / g_it_calls */
+#endif
     rc = st_it_rc[g_it_calls];
   }
+#if defined(RB_STUB_UNBOUNDED) && !VERIF_IS_NATIVE
+  else
+    rc = nondet_int();
+#endif
   g_it_calls++;
+  g_it_last_rc = rc;
   if (rc != 0)
     g_it_stopped = true;
   return rc;
